@@ -55,35 +55,18 @@ type txEscape struct {
 func txClosures(w *World, scope func(*ssa.Function) bool) map[*ssa.Function]bool {
 	out := map[*ssa.Function]bool{}
 	for _, fn := range w.Funcs {
-		if isTestFile(w, fn) || !scope(fn) {
+		if isTestFile(w, fn) || !scope(fn) || fn.Parent() == nil {
 			continue
 		}
-		allInstrs(fn, func(in ssa.Instruction) {
-			c := callOf(in)
-			if c == nil || !isBoltTxRunner(c) || len(c.Args) < 2 {
-				return
-			}
-			arg := c.Args[len(c.Args)-1]
-			switch x := arg.(type) {
-			case *ssa.MakeClosure:
-				out[x.Fn.(*ssa.Function)] = true
-			case *ssa.Function:
-				out[x] = true
-			case *ssa.Call:
-				// a helper that returns the closure
-				if f := x.Common().StaticCallee(); f != nil && f.Blocks != nil {
-					allInstrs(f, func(i2 ssa.Instruction) {
-						if ret, ok := i2.(*ssa.Return); ok {
-							for _, rv := range ret.Results {
-								if mc, ok := rv.(*ssa.MakeClosure); ok {
-									out[mc.Fn.(*ssa.Function)] = true
-								}
-							}
-						}
-					})
-				}
-			}
-		})
+		// a function literal whose only parameter is a *bolt.Tx: it runs inside a transaction whoever calls it
+		// (handed to DB.View/Update/Batch directly, returned by a helper, or called from another such closure)
+		ps := fn.Signature.Params()
+		if ps.Len() != 1 {
+			continue
+		}
+		if n := namedOf(ps.At(0).Type()); n != nil && n.Obj().Pkg() != nil && n.Obj().Pkg().Path() == boltPath && n.Obj().Name() == "Tx" {
+			out[fn] = true
+		}
 	}
 	return out
 }
